@@ -11,6 +11,7 @@ every agent key and every object sequence — including bodies that are decoded 
 headers after an auth rejection, truncated input and bodies valid for another command.
 -/
 import SerfProofs.Lemmas.IpcGate
+import SerfModel.Gen.IpcGate
 namespace SerfProofs.C24
 open SerfModel SerfModel.IpcGate SerfProofs.IpcGate
 
@@ -134,6 +135,76 @@ theorem C24_closed_silent {Obj : Type} (cd : Codec Obj) (key : String) (objs : L
   | nil => simp [runFrom]
   | cons o rest ih => simp [runFrom, step, hc, ih]
 
+/-- **C24, plain reading.**  A non-error reply — and any reply carrying data — is preceded by a
+successful handshake; when a key is configured, the non-error reply of any command other than
+handshake/auth (and any data) is preceded by an authentication with exactly that key.  So before the
+handshake (and the key) a client sees error replies only. -/
+theorem C24_replies_before_gates_are_errors {Obj : Type} (cd : Codec Obj) (key : String) (objs : List Obj)
+    (pre post : List Out) (seq : Nat) (e : Err) (d : Bool) (h : run cd key objs = pre ++ Out.reply seq e d :: post) :
+    ((e = .ok ∨ e = .handler ∨ d = true) → Out.handshakeOk ∈ pre) ∧
+    (key ≠ "" → (e = .handler ∨ d = true) → Out.auth key true ∈ pre) := by
+  obtain ⟨h1, h2⟩ := C24_gate cd key objs pre post _ h
+  constructor
+  · intro hc
+    apply h1
+    rcases hc with rfl | rfl | rfl <;> simp [Out.isEffect]
+  · intro hk hc
+    apply h2 hk
+    rcases hc with rfl | rfl <;> simp [Out.isGuarded]
+
+/-! ### Tie to the source: regenerated shapes of ipc.go (`Gen/IpcGate.lean`)
+
+Each obligation connects a fact extracted from the current source with the corresponding
+parameter of the hand model; an edit of the gate conditions, of what a gate replies or whether it
+closes the connection, of the order of checks in `handleHandshake` (seeded C24-a), of the key
+comparison in `handleAuth` (seeded C24-b), of the version constants or of the dispatch table
+breaks one of them. -/
+
+/-- the two gates of `handleRequest`: condition text, error replied, and that the handshake gate
+closes the connection (`onHeader`: `closed := true`) while the auth gate does not; unknown
+commands are answered and the connection closed -/
+theorem C24_src_gates :
+    Gen.IpcGate.handshakeGate = canonicalHandshakeGate ∧ Gen.IpcGate.authGate = canonicalAuthGate ∧
+    Gen.IpcGate.unknownCommand = ("Unsupported command", true) ∧
+    Gen.IpcGate.handshakeCommand = "handshake" ∧ Gen.IpcGate.authCommand = "auth" := by decide
+
+/-- MinIPCVersion / MaxIPCVersion are the model's constants -/
+theorem C24_src_versions :
+    Gen.IpcGate.minIPCVersion = IpcGate.minIPCVersion ∧ Gen.IpcGate.maxIPCVersion = IpcGate.maxIPCVersion := by decide
+
+/-- `handleHandshake` checks the version range, then the duplicate, and assigns `client.version`
+only in the final else; `handleAuth` compares the whole key with `==`: the extracted chains denote
+the `good` shape -/
+theorem C24_src_shape : shapeOf Gen.IpcGate.handshakeChain Gen.IpcGate.authChain = good := by decide
+
+/-- `client.version` and `client.didAuth` are written exactly once in ipc.go (in those two branches) -/
+theorem C24_src_state_writes : Gen.IpcGate.versionWrites = 1 ∧ Gen.IpcGate.didAuthWrites = 1 := by decide
+
+/-- the dispatch switch agrees with the model's `cmdInfo` (which handler reads a body, which sends one) -/
+theorem C24_src_dispatch :
+    dispatchAgrees Gen.IpcGate.dispatch = true ∧ Gen.IpcGate.membersBodyGuard = "command == membersFilteredCommand" := by decide
+
+theorem onBodyV_good {Obj : Type} (cd : Codec Obj) (key : String) (s : St) (o : Obj) :
+    onBodyV good cd key s o = onBody cd key s o := by
+  simp [onBodyV, onBody, good, keyMatches]
+
+theorem runFromV_good {Obj : Type} (cd : Codec Obj) (key : String) (objs : List Obj) (s : St) :
+    runFromV good cd key s objs = runFrom cd key s objs := by
+  induction objs generalizing s with
+  | nil => simp [runFromV, runFrom]
+  | cons o r ih =>
+    have hstep : stepV good cd key s o = step cd key s o := by simp [stepV, step, onBodyV_good]
+    simp [runFromV, runFrom, hstep, ih]
+
+/-- **C24 for the shape the source has**: the gate property for the variant model instantiated
+with the shapes extracted from the current ipc.go. -/
+theorem C24_gate_for_source_shape {Obj : Type} (cd : Codec Obj) (key : String) (objs : List Obj) :
+    gateOK (key != "") false false
+      (runV (shapeOf Gen.IpcGate.handshakeChain Gen.IpcGate.authChain) cd key objs) = true := by
+  rw [C24_src_shape]
+  simp only [runV, runFromV_good]
+  exact C24_scan cd key objs
+
 /-! ### Non-vacuity: a tiny decoder where an object is a (string, number) pair -/
 
 def toy : Codec (String × Nat) where
@@ -163,5 +234,34 @@ example : (stateAfter toy "k" [("handshake", 1), ("x", 1)]).closed = false ∧
 example : ∃ pre post, run toy "k" [("handshake", 1), ("x", 1), ("auth", 4), ("k", 0), ("stats", 5)] =
     pre ++ Out.effect "stats" "" :: post ∧ (Out.effect "stats" "").isGuarded = true :=
   ⟨[.handshakeOk, .reply 1 .ok false, .auth "k" true, .reply 4 .ok false], [.reply 5 .handler true], by decide, rfl⟩
+
+/-- `C24_replies_before_gates_are_errors` has instances with a non-error reply -/
+example : ∃ pre post, run toy "k" [("handshake", 1), ("x", 1), ("auth", 4), ("k", 0), ("stats", 5)] =
+    pre ++ Out.reply 5 .handler true :: post :=
+  ⟨[.handshakeOk, .reply 1 .ok false, .auth "k" true, .reply 4 .ok false, .effect "stats" ""], [], by decide⟩
+
+/-- **Regression witness (seeded C24-a)**: if `client.version` is assigned before the range check,
+a handshake rejected for version 2 opens the gate — `stats` is executed and answered with data
+without any successful handshake. -/
+theorem C24_assign_before_check_counterexample :
+    runV { hsAssignBeforeRangeCheck := true } toy "" [("handshake", 1), ("x", 2), ("stats", 5)] =
+      [.reply 1 .unsupportedVersion false, .effect "stats" "", .reply 5 .handler true] ∧
+    gateOK false false false
+      (runV { hsAssignBeforeRangeCheck := true } toy "" [("handshake", 1), ("x", 2), ("stats", 5)]) = false := by decide
+
+/-- **Regression witness (seeded C24-b)**: if the presented key is compared over its own length
+only, the proper prefix "sek" of the key "sekret" authenticates. -/
+theorem C24_prefix_key_counterexample :
+    Out.auth "sek" true ∈ runV { authPrefixMatch := true } toy "sekret"
+      [("handshake", 1), ("x", 1), ("auth", 3), ("sek", 0), ("stats", 5)] ∧
+    Out.effect "stats" "" ∈ runV { authPrefixMatch := true } toy "sekret"
+      [("handshake", 1), ("x", 1), ("auth", 3), ("sek", 0), ("stats", 5)] := by decide
+
+/-- on the same inputs the source's shape rejects -/
+example : runV good toy "" [("handshake", 1), ("x", 2), ("stats", 5)] =
+    [.reply 1 .unsupportedVersion false, .reply 5 .handshakeRequired false] := by decide
+
+example : runV good toy "sekret" [("handshake", 1), ("x", 1), ("auth", 3), ("sek", 0), ("stats", 5)] =
+    [.handshakeOk, .reply 1 .ok false, .auth "sek" false, .reply 3 .invalidToken false, .reply 5 .authRequired false] := by decide
 
 end SerfProofs.C24
